@@ -18,7 +18,11 @@ type Field struct {
 
 // XScript is one expansion case.
 type XScript struct {
-	Default bool    `json:"default_scheme"` // DefaultScheme "dd" configured?
+	Default bool    `json:"default_scheme"` // DefaultScheme configured? ("dd", or "env" when DefEnv)
+	DefEnv  bool    `json:"default_env,omitempty"`
+	// EnvUnset: environment variables the case refers to that must be unset; rows "env:NAME" of the
+	// table are the variables that are set (to the rendered text of the row).
+	EnvUnset []string `json:"env_unset,omitempty"`
 	Table   []Entry `json:"table"`          // what the providers return
 	Fields  []Field `json:"fields"`         // first source
 	Over    []Field `json:"over,omitempty"` // second source (overrides whole fields)
@@ -78,6 +82,9 @@ var fieldKind = map[string]string{"s1": "str", "s2": "str", "s3": "str", "i": "i
 	"m": "mapany", "ms": "mapstr", "l": "listany", "ls": "liststr", "mls": "mapliststr", "sub": "sub"}
 
 var allSchemes = []string{"aa", "b2", "x.y-z+1", defaultScheme}
+
+// real providers registered next to the fake schemes
+var realSchemes = []string{"env", "yaml"}
 
 // goVal builds the value served in the source map for v.
 func goVal(v Val) any {
@@ -199,8 +206,12 @@ func (s *XScript) tableAt(r int) []Entry {
 }
 
 func (s *XScript) worldFor(table []Entry) *world {
-	w := &world{def: s.Default, schemes: map[string]bool{}, table: map[string]*Entry{}, cls: map[string]int{}}
+	w := &world{def: s.Default, defEnv: s.DefEnv, schemes: map[string]bool{}, table: map[string]*Entry{}, cls: map[string]int{},
+		envDef: map[string]string{}, synth: map[string]*Entry{}}
 	for _, sc := range allSchemes {
+		w.schemes[sc] = true
+	}
+	for _, sc := range realSchemes {
 		w.schemes[sc] = true
 	}
 	for i := range table {
